@@ -4,39 +4,50 @@
 From Coq Require Import ZArith Reals List Lra Lia.
 From Coquelicot Require Import Coquelicot.
 From FF Require Import Base.Ops Inst.RInst Inst.Param Base.RAlg Model.Numeric Model.SecondOrder Model.Consts
-     Model.Tie.C10 Proofs.Foi Proofs.SecondOrder Proofs.SecondOrderAsm Proofs.SecondOrderInt Proofs.SecondOrderGlue Proofs.SecondOrderTrace Proofs.SecondOrderHerm Proofs.SecondOrderEncl Proofs.CMBase.
+     Model.Tie.C10 Proofs.Foi Proofs.SecondOrder Proofs.SecondOrderAsm Proofs.SecondOrderBound Proofs.SecondOrderInt Proofs.SecondOrderGlue Proofs.SecondOrderTrace Proofs.SecondOrderHerm Proofs.SecondOrderEncl Proofs.CMBase Corr.ObsC10.
 Import ListNotations.
 Local Open Scope R_scope.
 
-(* Segment integral: each of the three closed forms of numeric._second_order_integral (selected by the
-   exact-zero masks) is the iterated integral int_0^T e^{i a t} int_0^t e^{i b t'} dt' dt. *)
-Theorem C10_soi_cases : forall a b T, iterated_exp_integral a b T (soi_core RO a b (a + b) T).
+(* Segment integral: each of the three closed forms of numeric._second_order_integral, selected by exact zeros
+   (soi_core_x, the mathematical reference), is the iterated integral int_0^T e^{i a t} int_0^t e^{i b t'} dt' dt. *)
+Theorem C10_soi_cases : forall a b T, iterated_exp_integral a b T (soi_core_x RO a b (a + b) T).
 Proof. exact soi_cases. Qed.
 Print Assumptions C10_soi_cases.
 
-(* ... with a = Omega_ij - w, b = w + Omega_mn for the entry (i,j,m,n) the code computes *)
-Theorem C10_soi_entry_integral : forall w evi evj evm evn T,
-  iterated_exp_integral ((evi - evj) - w) (w + (evm - evn)) T (soi_entry RO w evi evj evm evn T).
+(* The code selects the cases by |x dt| > thr2 (1e-8 since c3a36ea).  Where both denominators are regular (zero, or
+   larger than thr2/T) its entry (i,j,m,n), a = Omega_ij - w, b = w + Omega_mn, IS that integral ... *)
+Theorem C10_soi_entry_integral : forall thr2 w evi evj evm evn T, 0 <= thr2 ->
+  regular thr2 (w + (evm - evn)) T -> regular thr2 ((evi - evj) - w) T ->
+  iterated_exp_integral ((evi - evj) - w) (w + (evm - evn)) T (soi_entry RO thr2 w evi evj evm evn T).
 Proof. exact soi_entry_integral. Qed.
 Print Assumptions C10_soi_entry_integral.
 
+(* ... and for ALL a, b and T >= 0 it is within thr2 T^2 (1/2 + thr2/4) of it, componentwise (exact arithmetic). *)
+Theorem C10_soi_bound : forall thr2 a b T, 0 <= thr2 -> 0 <= T ->
+  exists z, iterated_exp_integral a b T z /\
+    Rabs (fst (soi_core RO thr2 a b (a + b) T) - fst z) <= thr2 * (T * T) * (1/2 + thr2/4) /\
+    Rabs (snd (soi_core RO thr2 a b (a + b) T) - snd z) <= thr2 * (T * T) * (1/2 + thr2/4).
+Proof. exact soi_bound_integral. Qed.
+Print Assumptions C10_soi_bound.
+
 (* The two time orderings of the square add up to the product of the first-order integrals. *)
 Theorem C10_soi_sum_identity : forall a b T,
-  cadd' (soi_core RO a b (a + b) T) (soi_core RO b a (b + a) T) = cmul' (Jc a T) (Jc b T).
+  cadd' (soi_core_x RO a b (a + b) T) (soi_core_x RO b a (b + a) T) = cmul' (Jc a T) (Jc b T).
 Proof. exact soi_sum_identity. Qed.
 Print Assumptions C10_soi_sum_identity.
 
 (* Same-segment term of one segment: D(a,b,k,l) + conj D(b,a,l,k) = conj(step[a,k]) step[b,l]. *)
-Theorem C10_same_plus_adjoint_seg : forall d thr ev V Q tg dt omega basis nopers nc a b k l o,
-  0 <= thr ->
+Theorem C10_same_plus_adjoint_seg : forall d thr thr2 ev V Q tg dt omega basis nopers nc a b k l o,
+  0 <= thr -> 0 <= thr2 ->
   (forall N, In N nopers -> fherm d (toF N)) -> (forall Ck, In Ck basis -> fherm d (toF Ck)) ->
   length nc = length nopers ->
   (a < length nopers)%nat -> (b < length nopers)%nat -> (k < length basis)%nat -> (l < length basis)%nat ->
   (o < length omega)%nat ->
   (forall m n, (m < d)%nat -> (n < d)%nat ->
      let x := vg RO omega o + (vg RO ev m - vg RO ev n) in x = 0 \/ thr < Rabs (x * dt)) ->
+  (forall m n, (m < d)%nat -> (n < d)%nat -> regular thr2 (vg RO omega o + (vg RO ev m - vg RO ev n)) dt) ->
   let na := length nopers in let nk := length basis in let no := length omega in
-  let D := so_same RO d na nk no (so_NT RO d V nopers nc) (so_BT RO d V Q basis) (map (fun w => soi_tab RO d w ev dt) omega) in
+  let D := so_same RO d na nk no (so_NT RO d V nopers nc) (so_BT RO d V Q basis) (map (fun w => soi_tab RO d thr2 w ev dt) omega) in
   let step := cm_step RO d thr ev V Q tg dt omega basis nopers nc in
   cadd' (a5get RO D a b k l o) (cconj' (a5get RO D b a l k o)) =
   cmul' (cconj' (a3get RO step a k o)) (a3get RO step b l o).
@@ -45,15 +56,15 @@ Print Assumptions C10_same_plus_adjoint_seg.
 
 (* F2_ab,kl + conj(F2_ba,lk) = conj(B_ak) B_bl (generalized first-order filter function), exact arithmetic,
    Hermitian noise operators and basis, no first-order entry on the Taylor branch unless its argument is 0. *)
-Theorem C10_F2_plus_adjoint : forall d thr omega basis nopers evs Vs Qs ncoeffs dts ts a b k l o,
-  0 <= thr ->
+Theorem C10_F2_plus_adjoint : forall d thr thr2 omega basis nopers evs Vs Qs ncoeffs dts ts a b k l o,
+  0 <= thr2 <= thr ->
   (forall N, In N nopers -> fherm d (toF N)) -> (forall Ck, In Ck basis -> fherm d (toF Ck)) ->
   length evs = length dts -> length Vs = length dts ->
   (length dts <= length Qs)%nat -> (length dts <= length ts)%nat -> length ncoeffs = length nopers ->
   (a < length nopers)%nat -> (b < length nopers)%nat -> (k < length basis)%nat -> (l < length basis)%nat ->
   (o < length omega)%nat ->
-  no_taylor d thr omega evs dts o ->
-  let F2 := second_order_ff RO d thr evs Vs Qs omega basis nopers ncoeffs dts ts (None, None) in
+  no_taylor d omega thr evs dts o ->
+  let F2 := second_order_ff RO d thr thr2 evs Vs Qs omega basis nopers ncoeffs dts ts (None, None) in
   let Bm := control_matrix_from_scratch RO d thr evs Vs Qs omega basis nopers ncoeffs dts ts in
   cadd' (a5get RO F2 a b k l o) (cconj' (a5get RO F2 b a l k o)) =
   cmul' (cconj' (a3get RO Bm a k o)) (a3get RO Bm b l o).
@@ -66,11 +77,11 @@ Theorem C10_F2_plus_adjoint_needs_hermitian :
   let d := 1%nat in let thr := 0 in let omega := [0] in let basis := [w_iC] in let nopers := [w_I1] in
   let evs := [[0];[0]] in let Vs := [w_I1;w_I1] in let Qs := [w_I1;w_I1;w_I1] in
   let ncoeffs := [[1;1]] in let dts := [1;1] in let ts := [0;1;2] in
-  let F2 := second_order_ff RO d thr evs Vs Qs omega basis nopers ncoeffs dts ts (None, None) in
+  let F2 := second_order_ff RO d thr 0 evs Vs Qs omega basis nopers ncoeffs dts ts (None, None) in
   let Bm := control_matrix_from_scratch RO d thr evs Vs Qs omega basis nopers ncoeffs dts ts in
   0 <= thr /\ (forall N, In N nopers -> fherm d (toF N)) /\
   length evs = length dts /\ length Vs = length dts /\ (length dts <= length Qs)%nat /\ (length dts <= length ts)%nat /\
-  length ncoeffs = length nopers /\ no_taylor d thr omega evs dts 0 /\
+  length ncoeffs = length nopers /\ no_taylor d omega thr evs dts 0 /\
   cadd' (a5get RO F2 0 0 0 0 0) (cconj' (a5get RO F2 0 0 0 0 0)) <>
   cmul' (cconj' (a3get RO Bm 0 0 0)) (a3get RO Bm 0 0 0).
 Proof. exact F2_plus_adjoint_needs_hermitian. Qed.
@@ -78,10 +89,10 @@ Print Assumptions C10_F2_plus_adjoint_needs_hermitian.
 
 (* Both code paths (cached intermediates: all, only n_opers_transformed, only the frequency-dependent ones)
    define the value computed from scratch. *)
-Theorem C10_intermediates_irrelevant : forall d thr omega basis nopers evs Vs Qs ncoeffs dts ts im,
+Theorem C10_intermediates_irrelevant : forall d thr thr2 omega basis nopers evs Vs Qs ncoeffs dts ts im,
   valid_interm d thr omega basis nopers evs Vs Qs ncoeffs dts ts im ->
-  second_order_ff RO d thr evs Vs Qs omega basis nopers ncoeffs dts ts im =
-  second_order_ff RO d thr evs Vs Qs omega basis nopers ncoeffs dts ts (None, None).
+  second_order_ff RO d thr thr2 evs Vs Qs omega basis nopers ncoeffs dts ts im =
+  second_order_ff RO d thr thr2 evs Vs Qs omega basis nopers ncoeffs dts ts (None, None).
 Proof. exact intermediates_irrelevant. Qed.
 Print Assumptions C10_intermediates_irrelevant.
 Theorem C10_cached_valid : forall d thr omega basis nopers evs Vs Qs ncoeffs dts ts,
@@ -92,17 +103,17 @@ Proof. exact cached_valid. Qed.
 (* F2_assembly (proved part): the entry is sum_g [ D_g + conj(step_g[a,k]) sum_{g'<g} step_g'[b,l] ] and, per
    segment, D_g is the nested time-ordered integral of the segment's time-domain control matrix and step_g
    its Fourier integral times e^{i w t_g}. *)
-Theorem C10_F2_assembly_partial : forall d thr omega basis nopers evs Vs Qs ncoeffs dts ts a b k l o,
-  0 <= thr ->
+Theorem C10_F2_assembly_partial : forall d thr thr2 omega basis nopers evs Vs Qs ncoeffs dts ts a b k l o,
+  0 <= thr2 <= thr ->
   length evs = length dts -> length Vs = length dts ->
   (length dts <= length Qs)%nat -> (length dts <= length ts)%nat -> length ncoeffs = length nopers ->
   (a < length nopers)%nat -> (b < length nopers)%nat -> (k < length basis)%nat -> (l < length basis)%nat ->
   (o < length omega)%nat ->
-  no_taylor d thr omega evs dts o ->
+  no_taylor d omega thr evs dts o ->
   let segs := fresh_segs d thr omega basis nopers evs Vs Qs ts dts (transpose_coeffs RO (length dts) ncoeffs) in
-  a5get RO (second_order_ff RO d thr evs Vs Qs omega basis nopers ncoeffs dts ts (None, None)) a b k l o =
-    so_spec d (length nopers) (length basis) (length omega) omega a b k l o false segs 0c /\
-  Forall2 (seg_td d omega basis nopers a b k l o) segs (firstn (length dts) ts).
+  a5get RO (second_order_ff RO d thr thr2 evs Vs Qs omega basis nopers ncoeffs dts ts (None, None)) a b k l o =
+    so_spec d thr2 (length nopers) (length basis) (length omega) omega a b k l o false segs 0c /\
+  Forall2 (seg_td d thr2 omega basis nopers a b k l o) segs (firstn (length dts) ts).
 Proof. exact F2_assembly_partial. Qed.
 Print Assumptions C10_F2_assembly_partial.
 
@@ -111,20 +122,20 @@ Print Assumptions C10_F2_assembly_partial.
    of the piecewise time-domain control matrix Bpw (segment g: beta^g(t - t_g), real for Hermitian operators),
    for every number of segments, durations >= 0 (zero-length segments included), every frequency that keeps the
    first-order integrals off their Taylor branch (exact resonances included). *)
-Theorem C10_F2_assembly : forall d thr omega basis nopers evs Vs Qs ncoeffs dts a b k l o,
-  0 <= thr ->
+Theorem C10_F2_assembly : forall d thr thr2 omega basis nopers evs Vs Qs ncoeffs dts a b k l o,
+  0 <= thr2 <= thr ->
   (forall N, In N nopers -> fherm d (toF N)) -> (forall Ck, In Ck basis -> fherm d (toF Ck)) ->
   length evs = length dts -> length Vs = length dts -> (length dts <= length Qs)%nat ->
   length ncoeffs = length nopers ->
   (forall dt, In dt dts -> 0 <= dt) ->
   (a < length nopers)%nat -> (b < length nopers)%nat -> (k < length basis)%nat -> (l < length basis)%nat ->
   (o < length omega)%nat ->
-  no_taylor d thr omega evs dts o ->
+  no_taylor d omega thr evs dts o ->
   let ts := times RO dts in
   let segs := fresh_segs d thr omega basis nopers evs Vs Qs ts dts (transpose_coeffs RO (length dts) ncoeffs) in
   let w := vg RO omega o in
   let tau := sumlist RO dts in
-  let F2 := second_order_ff RO d thr evs Vs Qs omega basis nopers ncoeffs dts ts (None, None) in
+  let F2 := second_order_ff RO d thr thr2 evs Vs Qs omega basis nopers ncoeffs dts ts (None, None) in
   exists Gam : R -> Cx,
     (forall t, 0 <= t <= tau ->
        is_CInt (fun t' => cmul' (cexp' (w * t')) (Bpw d b l segs 0 t')) 0 t (Gam t)) /\
@@ -156,15 +167,15 @@ Definition ex_X : Mat (T:=R) := [[(0,0); (1,0)]; [(1,0); (0,0)]].
 Definition ex_I : Mat (T:=R) := [[(1,0); (0,0)]; [(0,0); (1,0)]].
 
 Example C10_hypotheses_satisfiable :
-  let d := 2%nat in let thr := / 10000000 in
+  let d := 2%nat in let thr := / 10000000 in let thr2 := / 100000000 in
   let omega := [1] in let basis := [ex_X] in let nopers := [ex_Z] in
   let evs := [[0; 1]] in let Vs := [ex_I] in let Qs := [ex_I; ex_I] in
   let ncoeffs := [[1]] in let dts := [1] in let ts := [0; 1] in
-  0 <= thr /\
+  0 <= thr2 <= thr /\
   (forall N, In N nopers -> fherm d (toF N)) /\ (forall Ck, In Ck basis -> fherm d (toF Ck)) /\
   length evs = length dts /\ length Vs = length dts /\
   (length dts <= length Qs)%nat /\ (length dts <= length ts)%nat /\ length ncoeffs = length nopers /\
-  no_taylor d thr omega evs dts 0 /\ (forall dt, In dt dts -> 0 <= dt) /\
+  no_taylor d omega thr evs dts 0 /\ (forall dt, In dt dts -> 0 <= dt) /\
   valid_interm d thr omega basis nopers evs Vs Qs ncoeffs dts ts
     (cached_intermediates RO d thr evs Vs Qs omega basis nopers ncoeffs dts ts).
 Proof.
@@ -180,4 +191,16 @@ Proof.
   - intros dt [<-|[]]. lra.
   - right; reflexivity.
   - right; reflexivity.
+Qed.
+
+(* the extracted thresholds (1e-8 for the case selection, 1e-7 for the first-order integral) satisfy 0 <= thr2 <= thr *)
+Example C10_thresholds_ordered :
+  0 <= Rdya (fst soi_thr) (snd soi_thr) <= Rdya (fst foi_thr) (snd foi_thr).
+Proof.
+  unfold soi_thr, foi_thr; simpl. unfold Rdya. simpl powerRZ. split.
+  - apply Rmult_le_pos. lra. left. apply Rinv_0_lt_compat. lra.
+  - apply Rmult_le_reg_r with (2 ^ 78). apply pow_lt; lra.
+    rewrite Rmult_assoc, Rinv_l by (apply pow_nonzero; lra).
+    replace (2 ^ 78) with (2 ^ 73 * 2 ^ 5) by (rewrite <- pow_add; reflexivity).
+    rewrite <- Rmult_assoc, (Rmult_assoc _ (/ 2 ^ 73)), Rinv_l by (apply pow_nonzero; lra). simpl. lra.
 Qed.
